@@ -218,7 +218,7 @@ PROPS["C09"] = dict(
          "each other - with the argument set A(n) = {0, 1, n-1, n, n+1, 2n, 2^63, MAX-1, MAX} (plus every in-range value for the small ones) in EVERY argument position of rank, rank_zero (<= len), select, select_zero, select_iter, "
          "select_zero_iter, predecessor, successor; Iterator::nth / nth_back(k) for k in A(remaining) on every iterator kind after 0, 1 and 2 consumed items from the front and after 1 and 2 items consumed from the back (result, exact size hint afterwards, the next items); wavelet matrices over small "
          "alphabets with A(.) x (present, absent, outside-the-alphabet values incl. u64::MAX) in every position of rank/select/select_iter/inverse_select/predecessor/successor/contains, and WMCore map_down/map_down_with/map_up_with over all "
-         "(index, value) and map_down_with_two_positions over all (index, index, value) - the pair variant must answer like two single queries; constructors with widths {0,1,13,64,65,2^20,MAX}, SparseBuilder::new with ones > universe, RLBuilder::try_set with start+len overflowing. No call may panic. Distinct by hashed structure.",
+         "(index, value) and map_down_with_two_positions over all (index, index, value) - the pair variant must answer like two single queries; constructors with widths {0,1,13,64,65,2^20,MAX}, SparseBuilder::new with ones > universe, SparseBuilder::new / multiset over the universes 2^63, 2^63+1, MAX-1, MAX with 1, 2, 3, 5 values (built and queried at the extremes), RLBuilder::try_set with start+len overflowing. No call may panic. Distinct by hashed structure.",
     bounds={"quick": "N=10; WM scopes (1,6) (2,4) (3,3) (4,2)", "thorough": "N=16; WM scopes (1,10) (2,6) (3,4) (4,3)"},
     assumptions=[HOOK_ASSUMPTION, MODEL_ASSUMPTION, "documented 'may panic' cases (get(i >= len), with_len whose len*width overflows) are not checked; WMCore with values >= 2^width is only required not to panic"],
 )
